@@ -1699,6 +1699,7 @@ _NP_FUNCS = {
     "diff": lambda a, **k: (lambda v: XArray((max(len(v) - 1, 0),), [v[i + 1] - v[i] for i in range(len(v) - 1)]))(list(XArray.from_nested(a).data)),
     "bincount": lambda x, weights=None, minlength=0: _np_bincount(x, weights, minlength),
     "flatnonzero": lambda a: _np_flatnonzero(a),
+    "add.at": lambda a, idx, b: _np_add_at(a, idx, b),
     "maximum": lambda a, b: _np_ewise2(a, b, lambda x, y: y if y > x else x),
     "minimum": lambda a, b: _np_ewise2(a, b, lambda x, y: y if y < x else x),
     "clip": lambda a, lo, hi, out=None: _np_clip(a, lo, hi, out),
@@ -1902,6 +1903,21 @@ def _np_bincount(x, weights=None, minlength=0):
         out[i] = out[i] + v
     return XArray((n,), out)
 
+
+
+def _np_add_at(a, idx, b):
+    """np.add.at(a, idx, b): unbuffered in-place accumulation (repeated indices add up), 1-D target"""
+    if not isinstance(a, XArray) or a.ndim != 1:
+        raise XArrayError("np.add.at on a non 1-D target is not modelled")
+    _, iv = _ints(idx, "add.at")
+    bv = [b] * len(iv) if _is_num(b) else list(XArray.from_nested(b).data)
+    if len(bv) != len(iv):
+        raise XArrayError("np.add.at: indices and values differ in length")
+    for i, v in zip(iv, bv):
+        if not -a.shape[0] <= i < a.shape[0]:
+            raise XArrayError("np.add.at: index out of bounds")
+        a[i] = a.data[i % a.shape[0]] + v
+    return None
 
 
 def _ints(a, what):
